@@ -446,8 +446,18 @@ class C11(HostProp):
             return HostProp.state_of(self, host, op)
         text = "".join(op["lines"])
         n = sum(len(host.w.get(op[k]) or b"") for k in KINDS if op.get(k))
-        return "|".join(["asm", ",".join(k for k in KINDS if op.get(k)), "NAM" if " NAM " in text else "-", "name" if op.get("name") else "-",
-                         "ORG" if " ORG " in text else "-", str(len(text) // 2000), "A" if op.get("append") else "-", str(min(n // 40000, 5))])
+        nam = next((l.split()[1] for l in op["lines"] if l.startswith(" NAM ")), None)
+        name = nam or op.get("name") or ""
+        org = next((l.split()[1] for l in op["lines"] if l.startswith(" ORG ")), None)
+        orgv = int(org[1:], 16) if org else None
+        orgc = "-" if orgv is None else ("0" if orgv == 0 else ("dp" if orgv < 0x100 else ("hi" if orgv >= 0x8000 else "lo")))
+        end = "E" if " END ENTRY" in text else ("L" if " END START" in text else ("e" if " END" in text else "-"))
+        image = sum(len(l) for l in op["lines"])
+        kinds = ",".join("%s%d" % (m["kind"], min(len(m["files"]), 3)) for p, m in sorted(host.model.items()) if p.startswith("out"))
+        return "|".join(["asm", ",".join(k for k in KINDS if op.get(k)), "NAM" if nam else "-",
+                         "-" if not op.get("name") else ("same" if nam and op["name"].upper() == nam.upper() else "name"),
+                         "n%d%s" % (min(len(name), 9) // 3, "" if name == name.upper() else "c"), orgc, end, str(image.bit_length()),
+                         "A" if op.get("append") else "-", kinds])
 
 
 # =================================================================================================
